@@ -23,11 +23,19 @@ from .c08 import may_raise
 from . import shared
 
 
+NEEDS_READER = True  # attached C06 clauses read the netlisters' conventions
+
+
 def check(repo: Repo, R) -> None:
     cache_discipline(repo, R)
     readable_names(repo, R)
     hashed_names(repo, R)
     no_foreign_rename(repo, R)
+    from . import c12, c06
+    c12.check(repo, shared.Retag(R, lambda r, k: "C09.3-hashed-names-process-independent" if r.startswith("C12.3") and ("_unique_name" in k or "naming_encoder" in k) else None,
+                                 "the name of a generated module depends on something other than the parameter values (an address, a salted hash): equal parameters give different names"))
+    c06.check(repo, shared.Retag(R, lambda r, k: "C09.5-distinct-modules-distinct-names" if r.startswith("C06.2") and k.endswith("export_module_name") else None,
+                                 "two different generated modules that share a qualified name are exported as one name defined twice, instead of being refused"))
     R.floor("C09.1-cache-discipline", 5)
     R.floor("C09.2-readable-names-injective", 2)
     R.floor("C09.3-hashed-names-process-independent", 3)
@@ -88,6 +96,12 @@ def cache_discipline(repo: Repo, R):
     inst = len(insts) == 1 and shared.conds_imply(shared.path_conditions(fp.node, insts[0]), [(shared.parse_cond("arg is Default"), False)]) is True
     kws = [r for r in shared.returns_of(fp.node) if shared.prov_text(fp.node, r.value) == "callee.Params(**kwargs)"]
     kw = len(kws) == 1 and shared.conds_imply(shared.path_conditions(fp.node, kws[0]), [(shared.parse_cond("arg is Default"), True)]) is True
+    # the keyword arguments reach the parameter class as given: `kwargs` is not filtered or rewritten on the way
+    kwname = fp.node.args.kwarg.arg if fp.node.args.kwarg else None
+    reb = shared.param_rebound(fp.node, kwname) if kwname else []
+    R.check(kwname is not None and not reb, rule, key_of(fp, "kwargs-as-given"), fp.at(reb[0]) if reb else fp.site,
+            f"param_call passes the caller's keyword arguments to the parameter class unchanged" if not reb else f"`{ast.unparse(reb[0])[:80]}` rewrites the keyword arguments before the parameter object is built",
+            why="Gen(x=None) and Gen(Params(x=None)) build different parameter objects: two Modules for one set of values (and Gen(x=None) is Gen())")
     R.check(both and inst and kw, rule, key_of(fp), fp.site, f"param_call: instance form returns the instance ({inst}); keyword form constructs callee.Params(**kwargs) ({kw}); giving both fails ({both})", why="keyword and instance calls with equal values produce unequal keys")
 
 
